@@ -39,3 +39,185 @@ def obligations(ctx):
         mag = abs(v)
         return "e2n_bigint_narrowing", [[1 if v < 0 else 0], le_bytes(mag & U64, 8), le_bytes((mag >> 64) & U64, 8), le_bytes((mag >> 128) & U64, 8)]
     ob.finish(E, nat)
+    value_compare(ctx)
+    value_arithmetic(ctx)
+
+
+# ---------------------------------------------------------------- Value comparison == component-wise comparison
+SHAPES = [None, [], [("p0", [])], [("p0", ["a0"])], [("p0", ["a0", "a1"])], [("p0", ["a0"]), ("p1", ["a0"])], [("p1", ["a1"])]]
+
+
+def value_compare(ctx):
+    """`Value::partial_cmp` (and compare()) against the component-wise order: lovelace and every asset of a small universe
+    (2 policies x 2 names), missing = 0.  Bundles have concrete shapes (absent, empty, a policy with no assets, 1-2 assets,
+    two policies) and symbolic quantities over all u64 INCLUDING 0; every pair of shapes."""
+    import itertools
+    P = ctx.P
+    ob = Obligation(ctx, "c14_e2_value_partial_cmp", "every pair of %d bundle shapes over 2 policies x 2 asset names; coins and quantities over all u64 (0 included)" % len(SHAPES),
+                    ["<Value as PartialOrd>::partial_cmp", "<MultiAsset as PartialOrd>::partial_cmp"])
+    agg = Engine(P)
+    universe = [(p, a) for p in ("p0", "p1") for a in ("a0", "a1")]
+    seen = set()
+    for si, sj in itertools.product(range(len(SHAPES)), repeat=2):
+        E = Engine(P, max_loop=8)
+        coins = [E.sym_int("coin_l", "u64"), E.sym_int("coin_r", "u64")]
+        q = {}
+        def build(side, shape, E=E, q=q):
+            if shape is None:
+                ma = VEnum("Option", "None", [])
+            else:
+                pols = []
+                for p, names in shape:
+                    assets = []
+                    for a in names:
+                        v = E.sym_int("q_%s_%s_%s" % (side, p, a), "u64")
+                        q[(side, p, a)] = v.t
+                        assets.append(VStruct("()", [VLazy(a, "AssetName"), VStruct("BigNum", [VInt(v.t, "u64")])]))
+                    pols.append(VStruct("()", [VLazy(p, "ScriptHash"), VStruct("Assets", [VSeq(assets, "map")])]))
+                ma = VEnum("Option", "Some", [VStruct("MultiAsset", [VSeq(pols, "map")])])
+            return VStruct("Value", [VStruct("BigNum", [VInt(coins[0 if side == "l" else 1].t, "u64")]), ma])
+        def mk(E=E, si=si, sj=sj):
+            q.clear()
+            for a, b in (("p0", "p1"), ("a0", "a1")):
+                E.pc.append(E.as_u(VLazy(a, "x")) != E.as_u(VLazy(b, "x")))
+            args_ = [VRef(Cell(build("l", SHAPES[si]), "self")), VRef(Cell(build("r", SHAPES[sj]), "other"))]
+            for t_ in list(q.values()) + [coins[0].t, coins[1].t]:
+                E.pc.append(z3.And(t_ >= 0, t_ <= U64))
+            return args_
+        for o in E.explore("<Value as PartialOrd>::partial_cmp", mk, max_paths=400):
+            if o.kind != "return":
+                ob.vc("no panic (%s %s) shapes %d/%d" % (o.kind, o.msg[:80], si, sj), o.pc, z3.BoolVal(False), info=(si, sj)); continue
+            comps = [(coins[0].t, coins[1].t)] + [(q.get(("l", p, a), z3.IntVal(0)), q.get(("r", p, a), z3.IntVal(0))) for p, a in universe]
+            all_le = z3.And([l <= r for l, r in comps])
+            all_ge = z3.And([l >= r for l, r in comps])
+            v = o.value
+            got = v.fields[0].variant if v.variant == "Some" else "None"
+            seen.add(got)
+            want = {"Equal": z3.And(all_le, all_ge), "Less": z3.And(all_le, z3.Not(all_ge)), "Greater": z3.And(all_ge, z3.Not(all_le)), "None": z3.And(z3.Not(all_le), z3.Not(all_ge))}[got]
+            ob.vc("shapes %s vs %s: result %s agrees with the component-wise order" % (SHAPES[si], SHAPES[sj], got), o.pc, want, info=(si, sj))
+        agg.stats["paths"] += E.stats["paths"]; agg.stats["feasibility_queries"] += E.stats["feasibility_queries"]; agg.stats["functions"] |= E.stats["functions"]
+    if seen != {"Equal", "Less", "Greater", "None"}:
+        ob.fail("expected all four outcomes, saw %s" % sorted(seen))
+    ob.cross_every = 12
+    def nat(m, info=None):
+        si, sj = info
+        def qv(side, p, a):
+            return mval(m, z3.Int("q_%s_%s_%s" % (side, p, a)))
+        vals = [[si], [sj], le_bytes(mval(m, z3.Int("coin_l")), 8), le_bytes(mval(m, z3.Int("coin_r")), 8)]
+        for side in ("l", "r"):
+            for p, a in universe:
+                vals.append(le_bytes(qv(side, p, a), 8))
+        return "e2n_value_compare", vals
+    ob.finish(agg, nat)
+
+
+def _bundle_quantities(E, v):
+    """{(policy, name): z3 term} of a concrete-shape Value result; None when the structure is not a shaped bundle"""
+    v = deref_all(E, v)
+    if not isinstance(v, VStruct) or v.name != "Value":
+        return None, None
+    coin = deref_all(E, v.fields[0])
+    coin_t = coin.fields[0].t if isinstance(coin, VStruct) else None
+    ma = deref_all(E, v.fields[1])
+    out = {}
+    if isinstance(ma, VEnum) and ma.variant == "Some":
+        m = deref_all(E, ma.fields[0])
+        pols = deref_all(E, m.fields[0])
+        if not isinstance(pols, VSeq):
+            return None, None
+        for pe in pols.items:
+            pk, pv = deref_all(E, pe.fields[0]), deref_all(E, pe.fields[1])
+            assets = deref_all(E, pv.fields[0])
+            if not isinstance(assets, VSeq) or not isinstance(pk, VLazy):
+                return None, None
+            for ae in assets.items:
+                ak, av = deref_all(E, ae.fields[0]), deref_all(E, ae.fields[1])
+                if not isinstance(ak, VLazy):
+                    return None, None
+                out[(pk.path, ak.path)] = av.fields[0].t
+    return coin_t, out
+
+
+def deref_all(E, v):
+    while isinstance(v, VRef):
+        v = E.read_ref(v)
+    return v
+
+
+def value_arithmetic(ctx):
+    """Value::checked_add / checked_sub / clamped_sub on shaped bundles, component-wise:
+       checked_add : every component is the exact sum, or the call fails (some component exceeds u64)
+       checked_sub : every component is the exact difference, or the call fails (some component would go below 0)
+       clamped_sub : every component is max(l - r, 0) (saturation is this function's documented contract)
+    These are also the summaries the pointwise abstraction of mir2smt/valuemodel.py relies on."""
+    import itertools
+    P = ctx.P
+    universe = [(p, a) for p in ("p0", "p1") for a in ("a0", "a1")]
+    U64 = (1 << 64) - 1
+    for op in ("checked_add", "checked_sub", "clamped_sub"):
+        ob = Obligation(ctx, "c14_e2_value_%s" % op, "every pair of %d bundle shapes over 2 policies x 2 asset names; coins and quantities over all u64 (0 included)" % len(SHAPES), ["Value::%s" % op, "MultiAsset::sub"])
+        agg = Engine(P)
+        nok = nerr = 0
+        for si, sj in itertools.product(range(len(SHAPES)), repeat=2):
+            E = Engine(P, max_loop=10)
+            coins = [E.sym_int("coin_l", "u64"), E.sym_int("coin_r", "u64")]
+            q = {}
+            def build(side, shape, E=E, q=q):
+                if shape is None:
+                    ma = VEnum("Option", "None", [])
+                else:
+                    pols = []
+                    for p, names in shape:
+                        assets = []
+                        for a in names:
+                            v = E.sym_int("q_%s_%s_%s" % (side, p, a), "u64")
+                            q[(side, p, a)] = v.t
+                            assets.append(VStruct("()", [VLazy(a, "AssetName"), VStruct("BigNum", [VInt(v.t, "u64")])]))
+                        pols.append(VStruct("()", [VLazy(p, "ScriptHash"), VStruct("Assets", [VSeq(assets, "map")])]))
+                    ma = VEnum("Option", "Some", [VStruct("MultiAsset", [VSeq(pols, "map")])])
+                return VStruct("Value", [VStruct("BigNum", [VInt(coins[0 if side == "l" else 1].t, "u64")]), ma])
+            def mk(E=E, si=si, sj=sj):
+                q.clear()
+                for a, b in (("p0", "p1"), ("a0", "a1")):
+                    E.pc.append(E.as_u(VLazy(a, "x")) != E.as_u(VLazy(b, "x")))
+                args_ = [VRef(Cell(build("l", SHAPES[si]), "self")), VRef(Cell(build("r", SHAPES[sj]), "rhs"))]
+                for t_ in list(q.values()) + [coins[0].t, coins[1].t]:
+                    E.pc.append(z3.And(t_ >= 0, t_ <= U64))
+                return args_
+            for o in E.explore("Value::%s" % op, mk, max_paths=2000):
+                what = "%s, shapes %s / %s" % (op, SHAPES[si], SHAPES[sj])
+                if o.kind != "return":
+                    ob.vc("no panic (%s %s) %s" % (o.kind, o.msg[:80], what), o.pc, z3.BoolVal(False), info=(op, si, sj)); continue
+                E.enter(o)
+                comps = [("coin", coins[0].t, coins[1].t)] + [("%s.%s" % (p, a), q.get(("l", p, a), z3.IntVal(0)), q.get(("r", p, a), z3.IntVal(0))) for p, a in universe]
+                res = o.value
+                if op != "clamped_sub":
+                    if res.variant != "Ok":
+                        nerr += 1
+                        bad = z3.Or([(l + r > U64) if op == "checked_add" else (l < r) for _, l, r in comps])
+                        ob.vc("%s: an error is reported only when some component has no exact result" % what, o.pc, bad, info=(op, si, sj))
+                        continue
+                    res = res.fields[0]
+                nok += 1
+                coin_t, got = _bundle_quantities(E, res)
+                if got is None:
+                    ob.fail("%s: result is not a shaped bundle" % what); continue
+                for name, l, r in comps:
+                    g = coin_t if name == "coin" else got.get(tuple(name.split(".")), z3.IntVal(0))
+                    want = (l + r) if op == "checked_add" else ((l - r) if op == "checked_sub" else z3.If(l >= r, l - r, 0))
+                    ob.vc("%s: component %s of the result is %s" % (what, name, {"checked_add": "the exact sum", "checked_sub": "the exact difference", "clamped_sub": "max(l - r, 0)"}[op]), o.pc, g == want, info=(op, si, sj))
+                for key in got:
+                    if key not in [(p, a) for p, a in universe]:
+                        ob.violation("%s: the result holds an asset %s that neither operand has" % (what, key))
+            agg.stats["paths"] += E.stats["paths"]; agg.stats["feasibility_queries"] += E.stats["feasibility_queries"]; agg.stats["functions"] |= E.stats["functions"]
+        if nok == 0 or (op != "clamped_sub" and nerr == 0):
+            ob.fail("%s: %d Ok and %d Err paths" % (op, nok, nerr))
+        ob.cross_every = 25
+        def nat(m, info=None):
+            op_, si, sj = info
+            vals = [[{"checked_add": 0, "checked_sub": 1, "clamped_sub": 2}[op_]], [si], [sj], le_bytes(mval(m, z3.Int("coin_l")), 8), le_bytes(mval(m, z3.Int("coin_r")), 8)]
+            for side in ("l", "r"):
+                for p, a in universe:
+                    vals.append(le_bytes(mval(m, z3.Int("q_%s_%s_%s" % (side, p, a))), 8))
+            return "e2n_value_arith", vals
+        ob.finish(agg, nat)
